@@ -29,6 +29,24 @@ EXCLUDE = _re.compile(r"(_test\.c$|/tls/|/dtls/|windows|/testing/|^src/tools/|/t
 # Every entry was read by hand; an entry that no longer matches a flagged site is reported
 # as stale by checks/c20.py (so the table cannot silently rot).
 JUSTIFIED = {
+    ("src/core/aio.c", "nng_verif_trace_start", "nni_zalloc", 0):
+        "verification hook H2 (#ifdef NNG_VERIF), not library code; nng_verif_trace_record tests the pointer",
+    ("src/core/lmq.c", "nni_lmq_init", "nni_lmq_resize", 0):
+        "documented: 'initialization of a queue is guaranteed to succeed ... if memory cannot be allocated "
+        "the capacity will only be 2' (proved: AllocFail lmq_init_o_clean)",
+    ("src/core/stats.c", "nni_stat_set_string", "nni_strdup", 0):
+        "best effort: a NULL string is a legal value of a string statistic (stat_update tests str != NULL)",
+    ("src/core/stats.c", "stat_update", "nni_strdup", 0):
+        "best effort: the snapshot's string is NULL, which is also its value for an item without a string; "
+        "the old copy is freed, nothing leaks",
+    ("src/sp/transport/udp/udp.c", "udp_start_rx", "nni_msg_insert", 0):
+        "the insert only needs sizeof(udp_sp_msg)=20 bytes of headroom, which the trim of the previous round and "
+        "nng_msg_alloc's 32-byte headroom provide (default rcvmax 65000); for a power-of-two rcvmax >= 1024 a "
+        "refused grow leaves a 20-byte smaller receive window, memory-safe",
+    ("src/sp/transport/udp/udp.c", "udp_recv_data", "nni_msg_realloc", 0):
+        "restores the length of a message whose capacity is already >= rcvmax: nni_chunk_grow finds the room and does not allocate",
+    ("src/supplemental/http/http_conn.c", "nni_http_set_status", "nni_strdup", 0):
+        "documented in the source: on failure the built-in reason phrase is used",
 }
 
 
@@ -333,7 +351,7 @@ if "extra_text" in globals():      # running inside gen_consts.py
     if len(_sites) < 100:
         missing.append("C20 allocation site scan found only %d sites" % len(_sites))   # noqa: F821
     extra_text.extend(coq_table(_sites))   # noqa: F821
-    _outd = _os.path.join(_os.path.dirname(_os.path.dirname(_os.path.dirname(_os.path.abspath(OUT_HINT)))) if "OUT_HINT" in globals() else "/verif", "out", "C20")
+    _outd = _os.path.join(_os.environ.get("NNGV_VERIF", "/verif"), "out", "C20")
     try:
         _os.makedirs(_outd, exist_ok=True)
         _json.dump(_sites, open(_os.path.join(_outd, "alloc_sites.json"), "w"), indent=1)
